@@ -46,15 +46,18 @@ def cfg_name(c):
     if c['kind'] == 'A':
         return f"A-{c['dt']}-{'x'.join(map(str, c['shape']))}-{c['order']}"
     return (f"P-{c['dt']}-{'x'.join(map(str, c['shape']))}-{'scl' if c['scl'] else 'raw'}-"
-            f"{'mmap' if c['mmap'] else 'nomm'}-{'gz' if c['gz'] else 'plain'}-{c['ctor']}{'-short' if c['short'] else ''}")
+            f"{'mmap' if c['mmap'] else 'nomm'}-{'gz' if c['gz'] else 'plain'}-{c['ctor']}{'-short' if c['short'] else ''}"
+            f"{'-kfo' if c.get('kfo') else ''}")
 
 
 def A(dt, shape=(2, 2, 2), order='C'):
     return dict(kind='A', dt=dt, shape=tuple(shape), order=order)
 
 
-def P(dt, scl, mm, shape=(2, 2, 2), gz=False, ctor='load', short=False):
-    return dict(kind='P', dt=dt, shape=tuple(shape), scl=scl, mmap=mm, gz=gz, ctor=ctor, short=short)
+def P(dt, scl, mm, shape=(2, 2, 2), gz=False, ctor='load', short=False, kfo=False):
+    # kfo: keep_file_open=True (a persistent file handle inside the proxy): not a parameter of the model -
+    # the cache / alias behaviour must be the same with it (seeded C13-11: a proxy that kept its memory map)
+    return dict(kind='P', dt=dt, shape=tuple(shape), scl=scl, mmap=mm, gz=gz, ctor=ctor, short=short, kfo=kfo)
 
 
 def base_values(shape):
@@ -210,12 +213,12 @@ def make_image(c, workdir):
         return nib.Nifti1Image(a, np.eye(4), header=h0), h0, a
     fn = os.path.join(workdir, file_name(c))
     if c['ctor'] == 'load':
-        img = nib.load(fn, mmap=c['mmap'])
+        img = nib.load(fn, mmap=c['mmap'], keep_file_open=True) if c.get('kfo') else nib.load(fn, mmap=c['mmap'])
         h0 = getattr(img, '_load_cache', {}).get('header')   # the header.copy() given to the proxy
         return img, h0, None
     with nib.openers.ImageOpener(fn) as f:
         h0 = nib.Nifti1Header.from_fileobj(f)
-    prox = ArrayProxy(fn, h0, mmap=c['mmap'])
+    prox = ArrayProxy(fn, h0, mmap=c['mmap'], keep_file_open=True) if c.get('kfo') else ArrayProxy(fn, h0, mmap=c['mmap'])
     return nib.Nifti1Image(prox, np.eye(4), header=h0), h0, None
 
 
@@ -491,7 +494,9 @@ def run(chk: Check):
                 P('f8', None, True, shape=(2, 3, 1)), A('f8', shape=(2, 3, 1)), P('i2', (2, 1), False, shape=(2, 3, 1)),
                 P('f8', None, True, short=True), P('i2', (2, 1), False, short=True), P('f4', None, True, gz=True, short=True),
                 A('f4', shape=(3, 2)), P('f4', None, True, shape=(3, 2)), P('i2', None, True, shape=(2, 1, 2, 2))]
-    cfgs = arr_cfgs + prox_cfgs + odd_cfgs
+    kfo_cfgs = [P(dt, scl, mm, ctor=ct, kfo=True) for dt in ('i2', 'f4', 'f8') for scl in (None, (2, 1)) for mm in (True, False)
+                for ct in ('load', 'ctor')] + [P('f8', None, True, gz=True, kfo=True), P('i2', (2, 1), False, gz=True, kfo=True)]
+    cfgs = arr_cfgs + prox_cfgs + odd_cfgs + kfo_cfgs
     prepare_files(cfgs, chk.workdir)
     idx = {cfg_name(c): i for i, c in enumerate(cfgs)}
     assert len(idx) == len(cfgs)
@@ -507,6 +512,11 @@ def run(chk: Check):
         ci = idx[cfg_name(c)]
         for seq in itertools.product(ALPHA, repeat=d_all):
             plan.append((ci, list(seq) + EPILOGUE))
+    for c in kfo_cfgs:        # persistent file handle: every history of length 3 (thorough) / a seeded third of them (quick)
+        ci = idx[cfg_name(c)]
+        for k, seq in enumerate(itertools.product(ALPHA, repeat=d_all if not thorough else 3)):
+            if thorough or c['dt'] == 'f8' and c['scl'] is None and c['mmap'] or (k + chk.seed) % 3 == 0:
+                plan.append((ci, list(seq) + EPILOGUE))
     for c in deep:
         ci = idx[cfg_name(c)]
         for seq in itertools.product(ALPHA, repeat=d_deep):
@@ -541,7 +551,8 @@ def run(chk: Check):
             plan.append((ci, list(seq) + EPILOGUE))
     # compressed files are read through a persistent (indexed gzip) opener: pointing file_like elsewhere does
     # not make the next read fail, so the failing-read operations are not used on them
-    plan = [(ci, ops) for ci, ops in plan if not (cfgs[ci].get('gz') and any(t[0] in 'xy' for t in ops))]
+    plan = [(ci, ops) for ci, ops in plan
+            if not ((cfgs[ci].get('gz') or cfgs[ci].get('kfo')) and any(t[0] in 'xy' for t in ops))]   # kfo: same reason
     n_exh = len(plan)
     allops = ALPHA + EXTRA
     weights = [4] * 4 + [3, 3, 3, 3, 5, 2] + [1] * 4 + [2] * 13 + [1] * (len(EXTRA) - 13)
@@ -549,7 +560,7 @@ def run(chk: Check):
         ci = rng.randrange(len(cfgs))
         depth = rng.randrange(5, 31)
         ops = rng.choices(allops, weights=weights, k=depth)
-        if cfgs[ci].get('gz'):
+        if cfgs[ci].get('gz') or cfgs[ci].get('kfo'):
             ops = ['im' if t[0] in 'xy' else t for t in ops]
         plan.append((ci, ops))
     chk.exhaustive = False
